@@ -38,7 +38,7 @@ def oracle(tier, rng, deep=False):
     if tier == "quick" and not deep:
         keep = {"AndersonCD:Quadratic:WeightedL1", "AndersonCD:WeightedQuadratic:WeightedMCPenalty", "ProxNewton:Poisson:WeightedL1",
                 "GroupBCD:Quadratic:WeightedGroupL2", "GroupProxNewton:Logistic:WeightedGroupL2", "MultiTaskBCD:QuadraticMultiTask:L2_1",
-                "GramCD:Quadratic:L1", "AndersonCD:Logistic:L1_plus_L2"}
+                "GramCD:Quadratic:L1", "AndersonCD:Logistic:L1_plus_L2", "GroupBCD:Quadratic:WeightedL1GroupL2"}
         specs = [s for s in specs if f"{s['solver']}:{s['datafit']}:{s['penalty']}" in keep]
     jobs = []
     for s in specs:
